@@ -104,9 +104,16 @@ var c10Keys = map[string]c10Key{
 var c10PGPKeys = []string{"keyid-decimal", "decimal-no-keyid", "armored", "binary", "protected", "protected-binary", "subkey-only", "keyid-primary", "keyid-subkey", "wrong-passphrase", "no-passphrase", "multiple-keys", "keyid-invalid", "key-missing"}
 var c10APKKeys = []string{"pkcs1", "pkcs8", "pkcs8-4096", "encrypted-pem", "encrypted-pem-general", "encrypted-pem-wrong", "pem-garbage"}
 
+// c10Payloads is the number of payload shapes (0 = empty).
+const c10Payloads = 6
+
 func c10Payload(i int) []model.Entry {
 	ts := c01Templates()
 	switch i {
+	case 4: // files on buffer boundaries, among them one of exactly 1 MiB
+		return []model.Entry{{Src: "sizes/s1048576.bin", Dst: "/opt/one-mib.bin"}, {Src: "sizes/s65536.bin", Dst: "/opt/s65536.bin"}, {Src: "sizes/s32769.bin", Dst: "/opt/s32769.bin"}}
+	case 5: // many small entries of every kind
+		return append(append([]model.Entry{}, ts[:12]...), model.Entry{Src: "sizes", Dst: "/opt/sizes", Type: "tree"})
 	case 1:
 		return []model.Entry{ts[0]}
 	case 2:
@@ -131,11 +138,11 @@ func init() {
 		Setup:  setupTree,
 		Decode: decodeInto[C10Case],
 		Bounds: func(env *engine.Env) map[string]any {
-			return map[string]any{"pgp_key_kinds": c10PGPKeys, "apk_key_kinds": c10APKKeys, "payloads": 4, "deb_compressions": []string{"", "xz", "zstd", "none"}}
+			return map[string]any{"pgp_key_kinds": c10PGPKeys, "apk_key_kinds": c10APKKeys, "payloads": c10Payloads, "deb_compressions": []string{"", "xz", "zstd", "none"}}
 		},
 		Enumerate: func(env *engine.Env, yield func(any) bool) {
 			for _, k := range c10PGPKeys {
-				for pl := 0; pl < 4; pl++ {
+				for pl := 0; pl < c10Payloads; pl++ {
 					for _, comp := range []string{"", "xz", "zstd", "none"} {
 						if (pl > 1 || k != "armored") && comp != "" && comp != "xz" {
 							continue
@@ -160,7 +167,7 @@ func init() {
 				}
 			}
 			for _, k := range c10APKKeys {
-				for pl := 0; pl < 4; pl++ {
+				for pl := 0; pl < c10Payloads; pl++ {
 					if !yield(C10Case{Format: "apk", Method: "apk", Key: k, Payload: pl, Via: "file", FailJ: -1}) {
 						return
 					}
@@ -194,8 +201,73 @@ func init() {
 					}
 				}
 			}
+			if env.Thorough() {
+				// the full products the quick tier thins out
+				for _, k := range c10PGPKeys {
+					for pl := 0; pl < c10Payloads; pl++ {
+						for _, comp := range []string{"", "xz", "zstd", "none"} {
+							for _, m := range []string{"debsign", "dpkg-sig"} {
+								for _, sde := range []string{"", "315532800", "1700000000"} {
+									if !yield(C10Case{Format: "deb", Method: m, Key: k, Payload: pl, Comp: comp, Via: "file", FailJ: -1, SDE: sde}) {
+										return
+									}
+								}
+							}
+						}
+						for _, sde := range []string{"", "315532800", "1700000000"} {
+							if !yield(C10Case{Format: "rpm", Method: "rpm", Key: k, Payload: pl, Via: "file", FailJ: -1, SDE: sde}) {
+								return
+							}
+						}
+					}
+				}
+				for _, k := range c10APKKeys {
+					for pl := 0; pl < c10Payloads; pl++ {
+						for _, kn := range append([]string{""}, c10KeyNameOrder...) {
+							for _, sde := range []string{"", "1700000000"} {
+								if !yield(C10Case{Format: "apk", Method: "apk", Key: k, Payload: pl, Via: "file", FailJ: -1, KeyName: kn, SDE: sde}) {
+									return
+								}
+							}
+						}
+					}
+				}
+				for _, st := range []string{"origin", "maint", "archive", "bogus", "Origin", "", "origin ", "ORIGIN", "maint\n"} {
+					for _, k := range []string{"armored", "protected", "keyid-subkey", "second"} {
+						for _, comp := range []string{"", "xz", "zstd", "none"} {
+							for pl := 0; pl < c10Payloads; pl++ {
+								if !yield(C10Case{Format: "deb", Method: "debsign", Key: k, Payload: pl, Comp: comp, Via: "file", SigType: st, FailJ: -1}) {
+									return
+								}
+							}
+						}
+					}
+				}
+				// every ordered pair of keys at one key-file path (first build with the one, second with the other)
+				for _, m := range []struct{ f, m string }{{"deb", "debsign"}, {"deb", "dpkg-sig"}, {"rpm", "rpm"}} {
+					for _, k := range []string{"second", "armored"} {
+						for pl := 0; pl < c10Payloads; pl++ {
+							for _, comp := range []string{"", "xz"} {
+								if m.f != "deb" && comp != "" {
+									continue
+								}
+								if !yield(C10Case{Format: m.f, Method: m.m, Key: k, Payload: pl, Comp: comp, Via: "file", FailJ: -1, Rotate: true}) {
+									return
+								}
+							}
+						}
+					}
+				}
+				for _, k := range []string{"pkcs8-4096", "pkcs1"} {
+					for pl := 0; pl < c10Payloads; pl++ {
+						if !yield(C10Case{Format: "apk", Method: "apk", Key: k, Payload: pl, Via: "file", FailJ: -1, Rotate: true}) {
+							return
+						}
+					}
+				}
+			}
 			// signing callbacks: succeed, and fail at call j
-			for pl := 0; pl < 4; pl++ {
+			for pl := 0; pl < c10Payloads; pl++ {
 				for _, m := range []struct {
 					f, m  string
 					calls int
